@@ -140,4 +140,53 @@ def renderOpK (S : Schema) (s : Nat) : UOG.UOp Bytes → String
 def coreOpsK (S : Schema) (s : Nat) (A B : List DNode) : List String :=
   (UOG.diffU (A.map keyOfH) (B.map keyOfH)).map (renderOpK S s)
 
+/-! ## several keys: one user-ordered list with `nk ≥ 1` keys, key-only instances -/
+
+def keyLeavesH : Nat → List Bytes → List DNode
+  | _, [] => []
+  | j, v :: vs => .term j {} [] v :: keyLeavesH (j + 1) vs
+
+/-- the children are plain key leaves of the schema nodes `j, j+1, …` -/
+def kidsOk : Nat → List DNode → Bool
+  | _, [] => true
+  | j, .term sid kf km _ :: rest => sid == j && !kf.dflt && !kf.whenTrue && !kf.new && km.isEmpty && kidsOk (j + 1) rest
+  | _, _ => false
+
+def isPlainMK (s nk : Nat) : DNode → Bool
+  | .inner s' f m kids => s' == s && !f.dflt && !f.whenTrue && !f.new && m.isEmpty && kids.length == nk && kidsOk (s + 1) kids
+  | _ => false
+
+/-- the key values of an instance -/
+def keysOfH (n : DNode) : List Bytes := n.kids.map (·.val)
+
+def nodupLL : List (List Bytes) → Bool
+  | [] => true
+  | x :: xs => !xs.contains x && nodupLL xs
+
+/-- `(s, nk)` if the hypotheses of `apply_diff_userord_flat_kl_multikey` hold -/
+def flatMK (S : Schema) (A B : List DNode) : Option (Nat × Nat) :=
+  match (A ++ B).head? with
+  | none => none
+  | some n =>
+    let s := n.sid
+    let nk := S.nkeys s
+    if S.kind? s == some .list && S.isUserOrd s && decide (0 < nk)
+        && (List.range nk).all (fun i => S.isKey (s + 1 + i) && S.kind? (s + 1 + i) == some .leaf
+              && !(bs (S.name (s + 1 + i))).contains 61)
+        && A.all (isPlainMK s nk) && B.all (isPlainMK s nk)
+        && nodupLL (A.map keysOfH) && nodupLL (B.map keysOfH) && (B.map keysOfH).all (fun kv => kv.all qokB)
+    then some (s, nk) else none
+
+def renderKey (kv : List Bytes) : String := ",".intercalate (kv.map Hex.enc)
+def predM (S : Schema) (s : Nat) (kv : List Bytes) : Bytes := keyPredicate S (.inner s {} [] (keyLeavesH (s + 1) kv))
+
+def renderOpM (S : Schema) (s : Nat) : UOG.UOp (List Bytes) → String
+  | .del k => "d:" ++ renderKey k
+  | .create k a => "c:" ++ renderKey k ++ ":" ++ (match a with | some z => Hex.enc (predM S s z) | none => "~")
+  | .move k a => "m:" ++ renderKey k ++ ":" ++ (match a with | some z => Hex.enc (predM S s z) | none => "~")
+
+/-- `UOG.diffU` on the key-value tuples, one token per operation, anchors as the concatenated key predicates -/
+def coreOpsM (S : Schema) (s : Nat) (A B : List DNode) : List String :=
+  (UOG.diffU (A.map keysOfH) (B.map keysOfH)).map (renderOpM S s)
+
 end LyModel.Diff.UOB
